@@ -208,6 +208,21 @@ def parse_one(text, safe=True):
     return st[0]
 
 
+def proj(node):
+    """project.project + the reference point of !path nodes (project.py looks for `_ref_point`, the attribute is `ref_point`)"""
+    import project as P
+    out = P.project(node)
+
+    def fix(n, p):
+        if p["k"] == "path":
+            p["fn"] = str(getattr(n, "ref_point", "") or "")
+        if p["ch"]:
+            for (_, c), (_, pc) in zip(n._children.items(), p["ch"]):
+                fix(c, pc)
+    fix(node, out)
+    return out
+
+
 def extras(node, path=""):
     """what the projection does not carry: file names of !include"""
     from awesomeyaml.nodes.composed import ComposedNode
@@ -224,7 +239,7 @@ def round_trip_node(orig, safe):
     """project -> dump -> parse -> project -> dump of one parsed document"""
     import project as P
     from awesomeyaml import yaml as ay
-    r = {"out": "ok", "p0": P.project(orig), "x0": extras(orig), "text1": None, "p1": None, "x1": None, "text2": None, "stable": False, "err": ""}
+    r = {"out": "ok", "p0": proj(orig), "x0": extras(orig), "text1": None, "p1": None, "x1": None, "text2": None, "stable": False, "err": ""}
     try:
         r["text1"] = ay.dump(orig)
     except Exception as e:  # noqa
@@ -235,7 +250,7 @@ def round_trip_node(orig, safe):
     except Exception as e:  # noqa
         r["out"], r["err"] = "reparse-error", "%s: %s" % (_errclass(e), str(e)[:300])
         return r
-    r["p1"] = P.project(re_)
+    r["p1"] = proj(re_)
     r["x1"] = extras(re_)
     try:
         r["text2"] = ay.dump(re_)
@@ -266,7 +281,11 @@ def outcome(texts, safes, evaluate=True):
     except Exception as e:  # noqa
         return {"err": _errclass(e)}
     import copy
-    o = {"obs": obs(P.project(tree), P.project(copy.deepcopy(tree)))}
+    pn = proj(tree)
+    try:
+        o = {"obs": obs(pn, proj(copy.deepcopy(tree)))}
+    except Exception as e:  # noqa  (a mapping key that shadows a dict method cannot be deep-copied: C19's subject)
+        o = {"obs": obs(pn, pn), "copy_error": type(e).__name__}
     if evaluate:
         from awesomeyaml.config import Config
         del vmod.CALLS[:]
